@@ -69,7 +69,7 @@ PLANS = {
              "occs_smaller/iterators on valid, boundary and invalid arguments (symbols 4..255, positions past the end). Class = (type, length "
              "bucket, mix, path); non-trivial iff n >= 2 and a non-zero rank or a select position was compared.",
         assumptions=COMMON_ASSUMPTIONS,
-        gates=dict(rel=dict(max_select_samples_one_symbol=3, max_superblocks=20)),
+        gates=dict(rel=dict(max_select_samples_one_symbol=3, max_superblocks=20, huge_superblocks=65536)),
     ),
     "C06": dict(
         logcheck=True,
@@ -80,7 +80,7 @@ PLANS = {
              "periods (1024 / 8192), seeded random. Battery: get/rank1/rank0/select1/select0/n_ones/n_zeros/bv_len on valid, boundary and "
              "invalid arguments. Non-trivial iff n >= 2 and a non-zero rank or a select position was compared.",
         assumptions=COMMON_ASSUMPTIONS,
-        gates=dict(rel=dict(max_ones=3 * 8192, max_zeros=3 * 8192)),
+        gates=dict(rel=dict(max_ones=3 * 8192, max_zeros=3 * 8192, huge_n=1 << 28)),
     ),
     "C07": dict(
         lanes=dict(quick=[("rel", N), ("dbg", N)],
@@ -92,7 +92,7 @@ PLANS = {
              "Class = (type, group-kind string, complement); non-trivial iff a select position was compared.",
         assumptions=COMMON_ASSUMPTIONS,
         gates=dict(rel=dict(dense_group_after_sparse_group=1, threshold_group=1, partial_last_group=1, select0_support_true=1,
-                            select0_support_false=1)),
+                            select0_support_false=1, huge_n=1 << 28)),
     ),
     "C08": dict(
         lanes=dict(quick=[("rel", N), ("dbg", N), ("miri", N)],
